@@ -50,3 +50,96 @@ Proof.
   - intros k Hk. unfold s0. apply nth_error_app1. exact Hk.
   - unfold s0. rewrite nth_error_app2 by lia. replace (n + 4 - length s) with 4 by (unfold n; lia). reflexivity.
 Qed.
+
+(* ---- FactorSet.product out of place: all member factors are copied ---------------------------- *)
+Lemma observe_prefix (s st : store) lf : store_ok s lf ->
+  (forall k, k < length s -> nth_error st k = nth_error s k) -> observe st lf = observe s lf.
+Proof.
+  intros (lv & lc & lx & ld & v & c & x & dd & Hf & Hv & Hc & Hx & Hd & Hdd) Hlow.
+  unfold observe, sread.
+  rewrite (Hlow lf) by (apply (sread_lt s lf _ Hf)). fold (sread s lf). rewrite Hf.
+  rewrite (Hlow lv) by (apply (sread_lt s lv _ Hv)). rewrite (Hlow lc) by (apply (sread_lt s lc _ Hc)).
+  rewrite (Hlow lx) by (apply (sread_lt s lx _ Hx)). rewrite (Hlow ld) by (apply (sread_lt s ld _ Hd)).
+  fold (sread s lv) (sread s lc) (sread s lx) (sread s ld). rewrite Hv, Hc, Hx, Hd.
+  f_equal. f_equal. apply map_ext_in. intros p Hp. f_equal. apply Hlow. apply Hdd. exact Hp.
+Qed.
+
+(* the first n cells are those of s, and every factor object beyond them only points beyond them *)
+Definition jinv (s : store) (st : store) : Prop :=
+  (forall k, k < length s -> nth_error st k = nth_error s k) /\ length s <= length st /\
+  forall l lv lc lx ld, length s <= l -> nth_error st l = Some (OFactor lv lc lx ld) ->
+    length s <= lv /\ length s <= lc /\ length s <= lx /\ length s <= ld.
+
+Lemma jinv_copy s s0 lf s1 lf' : jinv s s0 -> store_copy s0 lf = Some (s1, lf') -> jinv s s1 /\ length s <= lf'.
+Proof.
+  intros (H1 & H2 & H3) H. unfold store_copy in H.
+  destruct (sread s0 lf) as [[| | | | |lv lc lx ld]|]; try discriminate.
+  destruct (sread s0 lv) as [[v| | | | |]|]; try discriminate.
+  destruct (sread s0 lc) as [[|c| | | |]|]; try discriminate.
+  destruct (sread s0 lx) as [[| |x| | |]|]; try discriminate.
+  destruct (sread s0 ld) as [[| | |dd| |]|]; try discriminate.
+  unfold alloc in H. cbn in H. inversion H; subst s1 lf'; clear H.
+  repeat rewrite <- app_assoc. cbn [app]. repeat rewrite app_length. cbn [length].
+  set (m := length s0) in *. split; [|lia].
+  split; [|split].
+  - intros k Hk. rewrite nth_error_app1 by lia. apply H1. exact Hk.
+  - rewrite app_length. cbn [length]. lia.
+  - intros l a b c0 d0 Hl Hn. destruct (Nat.lt_ge_cases l m) as [Hlt|Hge].
+    + rewrite nth_error_app1 in Hn by exact Hlt. apply (H3 l a b c0 d0 Hl Hn).
+    + rewrite nth_error_app2 in Hn by exact Hge. fold m in Hn.
+      destruct (l - m) as [|[|[|[|[|k]]]]] eqn:E; cbn in Hn; try discriminate.
+      * inversion Hn; subst. lia.
+      * destruct k; discriminate.
+Qed.
+
+Lemma jinv_copy_all s : forall lfs s0 s' new, jinv s s0 -> store_copy_all s0 lfs = Some (s', new) ->
+  jinv s s' /\ forall l, In l new -> length s <= l.
+Proof.
+  induction lfs as [|lf r IH]; intros s0 s' new J H; cbn [store_copy_all] in H.
+  - inversion H; subst. split; [exact J|intros l []].
+  - destruct (store_copy s0 lf) as [[s1 lf']|] eqn:E; [|discriminate].
+    destruct (store_copy_all s1 r) as [[s2 ls]|] eqn:E2; [|discriminate]. inversion H; subst.
+    destruct (jinv_copy s s0 lf s1 lf' J E) as [J1 Hl]. destruct (IH s1 s' ls J1 E2) as [J2 Hn].
+    split; [exact J2|]. intros l [<-|Hin]; [exact Hl|apply Hn; exact Hin].
+Qed.
+
+Lemma length_set_nth {A} (l : list A) : forall k x, length (set_nth k x l) = length l.
+Proof. induction l as [|y l IH]; intros k x; [destruct k; reflexivity|]. destruct k; simpl; [reflexivity|]. rewrite IH. reflexivity. Qed.
+Lemma nth_error_set_nth_same {A} (l : list A) : forall k x, k < length l -> nth_error (set_nth k x l) k = Some x.
+Proof. induction l as [|y l IH]; intros k x H; [simpl in H; lia|]. destruct k; simpl; [reflexivity|]. apply IH. simpl in H. lia. Qed.
+
+Lemma jinv_mutate s st l m : jinv s st -> length s <= l -> jinv s (store_mutate st l m).
+Proof.
+  intros (H1 & H2 & H3) Hl. unfold store_mutate, sread.
+  destruct (nth_error st l) as [[| | | | |lv lc lx ld]|] eqn:E; try (split; [exact H1|split; [exact H2|exact H3]]).
+  destruct (H3 l lv lc lx ld Hl E) as (Hv & Hc & Hx & Hd).
+  assert (G : forall f o, length s <= f -> (forall a b c d, o <> OFactor a b c d) -> jinv s (swrite st f o)).
+  { intros f o Hf Ho. unfold swrite. split; [|split].
+    - intros k Hk. rewrite nth_error_set_nth_other by lia. apply H1. exact Hk.
+    - rewrite length_set_nth. exact H2.
+    - intros l0 a b c d Hl0 Hn. destruct (Nat.eq_dec l0 f) as [->|Hne].
+      + destruct (Nat.lt_ge_cases f (length st)) as [Hlt|Hge].
+        * rewrite nth_error_set_nth_same in Hn by exact Hlt. inversion Hn. exfalso. apply (Ho a b c d). assumption.
+        * exfalso. assert (Hnone : nth_error (set_nth f o st) f = None) by (apply nth_error_None; rewrite length_set_nth; exact Hge). congruence.
+      + rewrite nth_error_set_nth_other in Hn by exact Hne. apply (H3 l0 a b c d Hl0 Hn). }
+  destruct m; apply G; try assumption; intros; discriminate.
+Qed.
+
+(* after an out-of-place FactorSet product (or FactorSet.copy / the constructor), no sequence of mutations of the
+   result's member factors changes the observable content of any member factor of the operands *)
+Theorem factorset_product_pure (s : store) (a b : list nat) s' new (ms : list (nat * mutation)) :
+  (forall lf, In lf (a ++ b) -> store_ok s lf) ->
+  factorset_product_store s a b = Some (s', new) ->
+  (forall p, In p ms -> In (fst p) new) ->
+  forall lf, In lf (a ++ b) ->
+    observe (fold_left (fun st p => store_mutate st (fst p) (snd p)) ms s') lf = observe s lf.
+Proof.
+  intros Hok H Hms lf Hlf. unfold factorset_product_store in H.
+  assert (J0 : jinv s s) by (split; [reflexivity|split; [lia|intros l lv lc lx ld Hl Hn; exfalso; assert (Hnone : nth_error s l = None) by (apply nth_error_None; exact Hl); congruence]]).
+  destruct (jinv_copy_all s (a ++ b) s s' new J0 H) as [J Hnew].
+  assert (Jf : forall st, jinv s st -> jinv s (fold_left (fun st p => store_mutate st (fst p) (snd p)) ms st)).
+  { clear - Hms Hnew. induction ms as [|p ms IH]; intros st Jst; [exact Jst|]. cbn [fold_left]. apply IH.
+    - intros q Hq. apply Hms. right. exact Hq.
+    - apply jinv_mutate; [exact Jst|]. apply Hnew. apply Hms. left. reflexivity. }
+  apply observe_prefix; [apply Hok; exact Hlf|]. apply (Jf s' J).
+Qed.
